@@ -92,6 +92,7 @@ type Run struct {
 	stamp        int
 	monitor      bool
 	shareUsed    bool
+	inInit       bool
 	nAsserts     int
 	hadViolation bool
 	preemptSet   bool
